@@ -63,6 +63,7 @@ type xferResult struct {
 	late             [2]int32
 	alive            int
 	aliveAt          string
+	stacks           string
 	hasherN          int
 	tornDown         bool
 	sendAfterTear    float64
@@ -191,14 +192,27 @@ func runXfer(src fsutil.FS, dest string, o xferOpts, log *evLog) *xferResult {
 	if o.fault != nil && o.fault.teardown > 0 {
 		to = o.fault.teardown
 	}
-	timer := time.NewTimer(to)
+	// a fault-free transfer is torn down when NOTHING has crossed the stream for `to` (a big case on a loaded machine may
+	// need longer than that in total), or after the hard limit; a planned teardown happens at its fixed time
+	fixed := o.fault != nil && o.fault.teardown > 0
+	hard := time.Now().Add(15 * to)
+	atomic.StoreInt64(&log.last, time.Now().UnixNano())
+	tick := time.NewTicker(50 * time.Millisecond)
+	defer tick.Stop()
+	start := time.Now()
 	n := 0
 	var tornAt time.Time
 	for n < 2 {
 		select {
 		case <-done:
 			n++
-		case <-timer.C:
+		case <-tick.C:
+			if fixed && time.Since(start) < to {
+				continue
+			}
+			if !fixed && log.idleFor() < to && time.Now().Before(hard) {
+				continue
+			}
 			// tear the stream down: from now on every pending and later stream call fails; both calls must return
 			sh.teardown()
 			tornAt = time.Now()
@@ -225,6 +239,9 @@ func runXfer(src fsutil.FS, dest string, o xferOpts, log *evLog) *xferResult {
 	}
 	res.overlaps = [4]int32{s.overlapS, s.overlapR, r.overlapS, r.overlapR}
 	res.alive, res.aliveAt = waitQuiesce(500 * time.Millisecond)
+	if res.leaked > 0 {
+		res.stacks = fsutilStacks()
+	}
 	res.late = [2]int32{atomic.LoadInt32(&s.late), atomic.LoadInt32(&r.late)}
 	return res
 }
@@ -267,6 +284,9 @@ func parseXferOpts(m Op) xferOpts {
 	o.cfg = streamCfg{Cap: m.num("cap"), DelayUS: m.num("delay"), LingerUS: m.num("linger"), Window: m.num("window"), Seed: int64(m.num("seed"))}
 	if _, ok := m["cap"]; !ok {
 		o.cfg.Cap = 32
+	}
+	if ms := m.num("timeout_ms"); ms > 0 {
+		o.timeout = time.Duration(ms) * time.Millisecond
 	}
 	return o
 }
@@ -495,7 +515,7 @@ func syncOnce(o Op, sched Op) map[string]interface{} {
 		"view": view, "before": snapsToJSON(before), "after": snapsToJSON(after),
 		"log": logJSON(log, false), "notif": notifsJSON(res, sent, dest),
 		"overlaps": []int32{res.overlaps[0], res.overlaps[1], res.overlaps[2], res.overlaps[3]}, "leaked": res.leaked,
-		"late": []int32{res.late[0], res.late[1]}, "alive": res.alive, "alive_at": res.aliveAt,
+		"late": []int32{res.late[0], res.late[1]}, "alive": res.alive, "alive_at": res.aliveAt, "stacks": res.stacks,
 	}
 	if res.recvErr != nil {
 		out["recverr"] = res.recvErr.Error()
